@@ -26,7 +26,7 @@ import (
 	"verif/vk"
 )
 
-const c03Rule = "a history of 1-40 messages sent through the real send path (application messages with generated bodies incl. repeating groups and bodies ending in a group, dictionary-conforming bodies when a dictionary is configured; heartbeats, TestRequest answers and Rejects in between), then a ResendRequest over a generated range (inside, whole, single, empty b>e, beyond the end, e=0, e=999999, e>=last) with a generated set of numbers the application refuses to resend, persistence on/off, with/without dictionaries, every BeginString; non-trivial = range covering >=1 application and >=1 administrative message; distinct = distinct (history, range, refusals)"
+const c03Rule = "a history of 1-40 messages sent through the real send path (application messages with generated bodies incl. repeating groups and bodies ending in a group, dictionary-conforming bodies when a dictionary is configured; heartbeats, TestRequest answers and Rejects in between), then a ResendRequest over a generated range (inside, whole, single, empty b>e, beyond the end, e=0, e=999999, e>=last) with a generated set of numbers the application refuses to resend, persistence on/off, with/without dictionaries, every BeginString, application messages signed in the trailer; non-trivial = range covering >=1 application and >=1 administrative message; distinct = distinct (history, range, refusals)"
 
 func c03() *stats.Collector {
 	c := stats.Get("C03")
@@ -330,6 +330,16 @@ func c03Property(t *rapid.T) {
 				m.Header.SetString(122, "20200102-03:04:05.678")
 				shapes["sent-with-possdup-set-by-the-application"] = true
 			}
+			if rapid.IntRange(0, 3).Draw(t, "signed") == 0 {
+				// a signed message: SignatureLength / Signature in the trailer, right behind the body
+				sig := rapid.StringMatching(`[A-Za-z0-9]{1,8}`).Draw(t, "signature")
+				m.Trailer.SetString(93, strconv.Itoa(len(sig)))
+				m.Trailer.SetString(89, sig)
+				shapes["signed"] = true
+				if shape == "ends-with-group" {
+					shapes["signed-and-ends-with-group"] = true
+				}
+			}
 			st, err := s.r.Send(m)
 			if err != nil {
 				t.Fatalf("harness: send failed: %v", err)
@@ -507,6 +517,21 @@ func c03Property(t *rapid.T) {
 		}
 		if !sameFields(bodyFields(r.Fields), bodyFields(o.fs)) {
 			vk.Violation(t, c, "C03/body-differs/"+mode+"/"+o.shape, "number %d: body %v, original %v\n%s", r.Seq, bodyFields(r.Fields), bodyFields(o.fs), desc())
+		}
+		// what follows the body: a replay carries the original's trailer fields (or, for an engine that
+		// does not resend signatures, none of them) in front of its own CheckSum - never a trailer
+		// field the original did not have, one twice, or one with another value
+		trailer := func(fs []fixwire.Field) []fixwire.Field {
+			var out []fixwire.Field
+			for _, f := range fs {
+				if fixwire.IsTrailerTag(f.Tag) && f.Tag != 10 {
+					out = append(out, f)
+				}
+			}
+			return out
+		}
+		if tr := trailer(r.Fields); len(tr) > 0 && !sameFields(tr, trailer(o.fs)) {
+			vk.Violation(t, c, "C03/trailer-differs/"+mode+"/"+o.shape, "number %d: the replay's trailer fields are %v, the original's %v\n%s", r.Seq, tr, trailer(o.fs), desc())
 		}
 		if got, want := fixwire.GetS(r.Fields, 122), fixwire.GetS(o.fs, 52); got != want {
 			vk.Violation(t, c, "C03/origsendingtime/"+mode, "number %d: OrigSendingTime %q, original SendingTime %q\n%s", r.Seq, got, want, desc())
